@@ -37,10 +37,16 @@ Inductive kind :=
 | KBadHdr     (* starts with the ADF signature, header unreadable: cgio_check_file says ADF, ADF_Database_Open fails late *)
 | KDir.       (* a directory: rejected by cgio_check_file; at the ADF level open(O_RDONLY) succeeds, open(O_RDWR) fails *)
 
-Record world := mkW { kinds : list kind; wlinks : list (nat * nat) }.
+(* wlinks: file a has, under /D, a link node L<b> to F<b>:/D (the path exists in every valid file);
+   wdlinks: file a has a link node X<b> to F<b>:/Nope -- the FILE may exist, the stored PATH never does (dangling path) *)
+Record world := mkW { kinds : list kind; wlinks : list (nat * nat); wdlinks : list (nat * nat) }.
 Definition kind_of (w : world) (n : nat) : kind := nth n (kinds w) KMissing.
 Definition has_link (w : world) (a b : nat) : bool :=
   existsb (fun p => Nat.eqb (fst p) a && Nat.eqb (snd p) b) (wlinks w).
+Definition has_dlink (w : world) (a b : nat) : bool :=
+  existsb (fun p => Nat.eqb (fst p) a && Nat.eqb (snd p) b) (wdlinks w).
+(* a link node of either sort from a file named a to a file named b *)
+Definition has_any_link (w : world) (a b : nat) : bool := has_link w a b || has_dlink w a b.
 
 (* ------------------------------------------------------------------------------------------------ ADF_file[] *)
 Record slot := mkslot { in_use : nat; fd_open : bool; fname : option nat; links : list nat }.
@@ -163,17 +169,21 @@ Definition link_add (a : adf) (fi li : nat) (found : bool) : adf :=
   let a1 := set_slot a fi (mkslot (in_use s) (fd_open s) (fname s) (links s ++ [li])) in
   if found then set_in_use a1 li (in_use (slot_at a1 li) + 1) else a1.
 
-(* ---- one link of ADFI_chase_link: the node is the link L<n> under /D of the file in slot cur -------------
+(* ---- one link of ADFI_chase_link: the node is the link L<n> (dang = false) or X<n> (dang = true: its stored path does
+   not exist in F<n>) under /D of the file in slot cur.  The order is the one of the C: locate the file
+   (ADFI_find_file), find it among the open files or open it (ADFI_link_open), ADFI_link_add, and ONLY THEN look the stored
+   path up in it (ADF_Get_Node_ID -> LINK_TARGET_NOT_THERE for a dangling path): when the path is missing the file stays
+   open, but owned by links[] of the referencing file.  The cache is written only when the whole chase succeeded.
    result None = an error was returned (the table may have changed), Some li = the file index now holding F<n> *)
-Definition chase (v : variant) (fuel : nat) (w : world) (a : adf) (cur n : nat) : option (adf * option nat) :=
+Definition chase (v : variant) (fuel : nat) (w : world) (a : adf) (cur n : nat) (dang : bool) : option (adf * option nat) :=
   let s := slot_at a cur in
   if (length (tab a) <=? cur) || Nat.eqb (in_use s) 0 then Some (a, None) else      (* ADF_FILE_NOT_OPENED *)
   match fname s with
   | None => Some (a, None)
   | Some nm =>
-    if negb (has_link w nm n) then Some (a, None) else                              (* CHILD_NOT_OF_GIVEN_PARENT *)
+    if negb (if dang then has_dlink w nm n else has_link w nm n) then Some (a, None) else   (* CHILD_NOT_OF_GIVEN_PARENT *)
     let hit := match lcache a with
-               | Some (c, m, li) => if Nat.eqb c cur && Nat.eqb m n then Some li else None
+               | Some (c, m, li) => if Nat.eqb c cur && Nat.eqb m n && negb dang then Some li else None
                | None => None
                end in
     match hit with
@@ -183,11 +193,15 @@ Definition chase (v : variant) (fuel : nat) (w : world) (a : adf) (cur n : nat) 
     match kind_of w n with
     | KOk | KBadHdr =>                                              (* ADFI_find_file: cgio_check_file says ADF *)
         match find_name (tab a) n with
-        | Some li => Some (set_cache (link_add a cur li true) (Some (cur, n, li)), Some li)
+        | Some li => let a1 := link_add a cur li true in
+                     if dang then Some (a1, None)                                   (* LINK_TARGET_NOT_THERE *)
+                     else Some (set_cache a1 (Some (cur, n, li)), Some li)
         | None => match adf_database_open v fuel w a n true with                    (* ADFI_link_open *)
                   | None => None
                   | Some (a1, None) => Some (a1, None)
-                  | Some (a1, Some li) => Some (set_cache (link_add a1 cur li false) (Some (cur, n, li)), Some li)
+                  | Some (a1, Some li) => let a2 := link_add a1 cur li false in
+                                          if dang then Some (a2, None)              (* LINK_TARGET_NOT_THERE *)
+                                          else Some (set_cache a2 (Some (cur, n, li)), Some li)
                   end
         end
     | _ => Some (a, None)                                                           (* LINKED_TO_FILE_NOT_THERE *)
@@ -195,11 +209,11 @@ Definition chase (v : variant) (fuel : nat) (w : world) (a : adf) (cur n : nat) 
     end
   end.
 
-Fixpoint walk (v : variant) (fuel : nat) (w : world) (a : adf) (cur : nat) (chain : list nat)
+Fixpoint walk (v : variant) (fuel : nat) (w : world) (a : adf) (cur : nat) (chain : list (nat * bool))
   : option (adf * bool) :=
   match chain with
   | [] => Some (a, negb ((length (tab a) <=? cur) || Nat.eqb (in_use (slot_at a cur)) 0))
-  | n :: r => match chase v fuel w a cur n with
+  | (n, dang) :: r => match chase v fuel w a cur n dang with
               | None => None
               | Some (a1, None) => Some (a1, false)
               | Some (a1, Some li) => walk v fuel w a1 li r
@@ -251,7 +265,7 @@ Definition cgio_close_file (v : variant) (fuel : nat) (s : io) (c : nat) : optio
     end
   end.
 
-Definition cgio_walk (v : variant) (fuel : nat) (w : world) (s : io) (c : nat) (chain : list nat)
+Definition cgio_walk (v : variant) (fuel : nat) (w : world) (s : io) (c : nat) (chain : list (nat * bool))
   : option (io * bool) :=
   match c with
   | O => Some (s, false)
@@ -266,7 +280,7 @@ Definition cgio_walk (v : variant) (fuel : nat) (w : world) (s : io) (c : nat) (
   end.
 
 (* ------------------------------------------------------------------------------------------------ sessions *)
-Inductive op := OOpen (n : nat) (rw : bool) | OWalk (c : nat) (chain : list nat) | OClose (c : nat).
+Inductive op := OOpen (n : nat) (rw : bool) | OWalk (c : nat) (chain : list (nat * bool)) | OClose (c : nat).
 Inductive res := ResOpen (c : option nat) | ResWalk (ok : bool) | ResClose (r : cres).
 
 Definition step (v : variant) (fuel : nat) (w : world) (s : io) (o : op) : option (io * res) :=
@@ -319,7 +333,7 @@ Definition refcount_balanced (v : variant) : Prop :=
 
 (* the link graph between the files on disk is acyclic: a rank decreases along every link *)
 Definition acyclic (w : world) (rank : nat -> nat) : Prop :=
-  forall a b, has_link w a b = true -> rank b < rank a.
+  forall a b, has_any_link w a b = true -> rank b < rank a.
 
 (* ------------------------------------------------------------------------------------------------ MLL table *)
 (* cgns_files[0 .. n_cgns_files): Some h = an entry whose mode is not CG_MODE_CLOSED, holding cgio handle h (a token);
